@@ -58,6 +58,15 @@ def run(chk):
         with open(os.path.join(base, f), 'w') as fh:
             fh.write(f)
     os.symlink(os.path.join(base, 'vault', 'pub'), os.path.join(b, 'root', 'shared'))
+    # a backup beside the root that repeats the root's absolute path (rsync -R, cp --parents), and a root whose own name
+    # contains the path-list separator, next to a sibling named like its first half
+    planted = os.path.join(b, 'backup', os.path.join(b, 'root').lstrip('/'))
+    os.makedirs(planted)
+    os.makedirs(os.path.join(b, 'root:v2'))
+    for f in (os.path.join(planted, 'planted'), os.path.join(b, 'root:v2', 'own')):
+        with open(f, 'w') as fh:
+            fh.write(f)
+        files.append(os.path.relpath(f, base))
     _base[0] = base
     if not _hooked[0]:
         sys.addaudithook(_audit)
@@ -105,6 +114,13 @@ def run(chk):
             jobs.append((nm, rt))
     for nm in meta_names:
         jobs.append((nm, meta_root))
+    for nm in ('../backup/' + os.path.join(b, 'root').lstrip('/') + '/planted', 'sub/../../backup/' + os.path.join(b, 'root').lstrip('/') + '/planted',
+               '/../backup' + os.path.join(b, 'root') + '/planted', '../backup/' + os.path.join(b, 'root').lstrip('/') + '/../root/planted'):
+        for rt in roots:
+            jobs.append((nm, rt))
+    for nm in ('own', 'in', 'sub/deep', '../root/in', '../root:v2/own', '../top'):
+        for rt in (('colon root', os.path.join(b, 'root:v2')), ('colon root/', os.path.join(b, 'root:v2') + '/'), ('rel colon root', 'root:v2', b)):
+            jobs.append((nm, rt))
     for rname, rroot, rcwd in rel_roots:
         for nm in rel_names:
             jobs.append((nm, (rname, rroot, rcwd)))
